@@ -42,9 +42,12 @@ func (l *streamLog) add(ts time.Time, sequenceNumber uint16, ecn uint8) {
 	if unwrappedSequenceNumber < l.nextSequenceNumberToReport {
 		return
 	}
-	l.log[unwrappedSequenceNumber] = &packetReport{
-		arrivalTime: ts,
-		ecn:         ecn,
+	if _, duplicate := l.log[unwrappedSequenceNumber]; !duplicate {
+		// RFC 8888: the arrival time of the first copy to arrive is the one reported
+		l.log[unwrappedSequenceNumber] = &packetReport{
+			arrivalTime: ts,
+			ecn:         ecn,
+		}
 	}
 	if l.lastSequenceNumberReceived < unwrappedSequenceNumber {
 		l.lastSequenceNumberReceived = unwrappedSequenceNumber
